@@ -82,7 +82,7 @@ fn apply_write(
 
 /// Run the write-only part of a case on a journalling MemFs.
 pub fn record(case: &Case) -> Result<Recorded, String> {
-    raindb::verif::set_level_base_bytes(crate::engine::level_base_for(&case.cfg));
+    crate::engine::set_level_limits(crate::engine::level_code_for(&case.cfg));
     let fs = Arc::new(MemFs::new(true));
     let mut rec = Recorded {
         journal: vec![],
@@ -90,7 +90,7 @@ pub fn record(case: &Case) -> Result<Recorded, String> {
         states: vec![Model::new()],
         cfgs: vec![(0, case.cfg)],
         counter: 0,
-        level_base: crate::engine::level_base_for(&case.cfg),
+        level_base: crate::engine::level_code_for(&case.cfg),
         conc: vec![],
         group_commit: false,
     };
@@ -281,7 +281,7 @@ pub fn conc_universe(wl: &ConcWl) -> Vec<Vec<u8>> {
 
 /// Run a concurrent workload on a journalling MemFs.
 pub fn record_conc(wl: &ConcWl) -> Result<Recorded, String> {
-    raindb::verif::set_level_base_bytes(crate::engine::level_base_for(&wl.cfg));
+    crate::engine::set_level_limits(crate::engine::level_code_for(&wl.cfg));
     use std::sync::atomic::Ordering;
     let fs = Arc::new(MemFs::new(true));
     let db = Arc::new(DB::open(options(&fs, &wl.cfg)).map_err(|e| format!("open failed: {e:?}"))?);
@@ -369,7 +369,7 @@ pub fn record_conc(wl: &ConcWl) -> Result<Recorded, String> {
         states: vec![],
         cfgs: vec![(0, wl.cfg)],
         counter: 9_000_000,
-        level_base: crate::engine::level_base_for(&wl.cfg),
+        level_base: crate::engine::level_code_for(&wl.cfg),
         conc,
         group_commit,
     })
